@@ -203,6 +203,21 @@ CLAIMED = {
        "repo_canon), vectors of zero-size elements do not round-trip (no repository type has one - repo_progress), proposal type 0 decodes but does not re-encode, ratchet history accepts "
        "duplicate generations.",
   ref="DESIGN.md §4 C12"),
+ "C14": dict(
+  technique="Lean 4 proof (model of the generic HPKE / DHKEM construction over an abstract primitive record: receiver context = sender context, seal/open sequences, nonce injectivity, export, psk rules, cross-provider interop; abstract X.509 verdict) + byte-level correspondence of the real Hpke/DhKem code and of each provider's hash/MAC/HKDF with the Lean reference + three-provider differential + mixed-provider group histories",
+  text="Theorems MlsVerif.Props.C14 (32): setup_agree / setup_agree_fail (base and psk mode), seal_open_seq for every message list, open_wrong_aad, open_out_of_order, nonce_injective, "
+       "seq_never_wraps, no_nonce_reuse, export_agree, export_only, psk_rules, dhkem_correct / dhkem_kem_correct / kem_context_binds / dhkem_shared_secret / dhkem_sampling, interchangeable "
+       "(every operation is a function of the primitive record) and interop (a context / ciphertext produced on one record continues / opens on another that agrees on the KDF and "
+       "decapsulates what the first encapsulated); X.509: verdict_time_window, verdict_reject_cases, verdict_anchor_monotone, verdict_prefix. Tie per quick run: ~1.4k rows where the compiled "
+       "Lean model recomputes hash, HMAC, HKDF of every provider and the key / nonce sequence / export / DHKEM shared secret / dkp_prk / derived secret key / rejection-sampling candidates of "
+       "the REAL generic Hpke and DhKem code driven with scripted KEM/DH and a recording AEAD over each provider's KDF (RFC 9180 vectors reproduced); ~7.9k side-by-side primitive cases over "
+       "all providers and common suites incl. empty / boundary lengths, wrong key / nonce / tag, malformed keys, every (sealer, opener) and (signer, verifier) pair; 1.6k X.509 rows "
+       "(3 validators x generated chains x boundary times) against the model verdict; 14 mixed-provider group histories over suites 1-7 with the C01 agreement oracle.",
+  note="Trusted: Lean kernel; abstract-primitive hypotheses (KEM/DH correctness, AEAD inverse and binding); no Lean model of AES-GCM / ChaCha20-Poly1305 / curves / signatures - those are "
+       "compared between providers only; harness. Defects found and fixed here: F24-F30 (RustCrypto nonce-length panic, OpenSSL nonce length, AWS-LC X25519 key length, AWS-LC HKDF guards, "
+       "AWS-LC empty plaintext, OpenSSL expand length 0, OpenSSL NO_CHECK_TIME). Recorded known findings: F18-F23 (HMAC empty key, malformed signature secret keys, notAfter boundary, anchor "
+       "path length, reordered intermediates, trailing certificates).",
+  ref="DESIGN.md §4 C14"),
 }
 PENDING_REASON = "check not built yet in this session (planned, see DESIGN.md §8); not claimed until its check exists"
 
